@@ -350,7 +350,10 @@ theorem range_map_getD (m : List Var) : (List.range m.length).map (fun k => m.ge
 theorem dispatchQuso_labelled (L : Obj) (hk : L.kind = .quso) (N : Nat) (model : Poly) (rev : List Var)
     (h : dispatchQuso L = .ok (N, model, rev)) : N = L.vars.length ∧ toQuso L = .ok model ∧ rev = L.mapping := by
   have hne : ¬ L.kind = .qusom := by rw [hk]; decide
+  have hnp : ¬ L.kind = .pusom := by rw [hk]; decide
   unfold dispatchQuso at h
+  rw [if_neg hnp] at h
+  unfold dispatchQusoCore at h
   rw [if_neg hne] at h
   cases hq : toQuso L with
   | error e => simp [hk, hq, bind, Except.bind, pure, Except.pure] at h
